@@ -287,6 +287,19 @@ impl<D: Data> MatZnx<D> {
 
 impl<D: DataMut> ReaderFrom for MatZnx<D> {
     fn read_from<R: std::io::Read>(&mut self, reader: &mut R) -> std::io::Result<()> {
+        self.read_from_validated(reader, |_, _| Ok(()))
+    }
+}
+
+impl<D: DataMut> MatZnx<D> {
+    /// Same as [`ReaderFrom::read_from`], but `validate(rows, cols_in)` is called on the incoming
+    /// dimensions before anything (payload or metadata) is overwritten, so that a wrapper can tie its
+    /// own fields to them.
+    pub fn read_from_validated<R: std::io::Read>(
+        &mut self,
+        reader: &mut R,
+        validate: impl FnOnce(usize, usize) -> std::io::Result<()>,
+    ) -> std::io::Result<()> {
         let new_n: usize = reader.read_u64::<LittleEndian>()? as usize;
         let new_size: usize = reader.read_u64::<LittleEndian>()? as usize;
         let new_rows: usize = reader.read_u64::<LittleEndian>()? as usize;
@@ -294,15 +307,18 @@ impl<D: DataMut> ReaderFrom for MatZnx<D> {
         let new_cols_out: usize = reader.read_u64::<LittleEndian>()? as usize;
         let len: usize = reader.read_u64::<LittleEndian>()? as usize;
 
-        let expected_len: usize = new_rows * new_cols_in * new_n * new_cols_out * new_size * size_of::<i64>();
-        if expected_len != len {
+        let expected_len: Option<usize> = [new_cols_in, new_n, new_cols_out, new_size, size_of::<i64>()]
+            .iter()
+            .try_fold(new_rows, |acc, x| acc.checked_mul(*x));
+        if expected_len != Some(len) {
             return Err(std::io::Error::new(
                 std::io::ErrorKind::InvalidData,
                 format!(
-                    "MatZnx metadata inconsistent: rows={new_rows} * cols_in={new_cols_in} * n={new_n} * cols_out={new_cols_out} * size={new_size} * 8 = {expected_len} != data len={len}"
+                    "MatZnx metadata inconsistent: rows={new_rows} * cols_in={new_cols_in} * n={new_n} * cols_out={new_cols_out} * size={new_size} * 8 != data len={len}"
                 ),
             ));
         }
+        validate(new_rows, new_cols_in)?;
 
         let buf: &mut [u8] = self.data.as_mut();
         if buf.len() < len {
